@@ -1837,7 +1837,7 @@ def _mapmeta_rule(ctx):
                 env[a_] = ctx.folder.eval(d_, mm.module)
         return run_function(ctx, mm.module, meth, env, call_hook=hook, deep=False)
 
-    base = {"__module__": "m", "__qualname__": "W", "alpha": 1, "Beta": 2, "GAMMA": b"\x03", "_private": 9, "helper": cm, "text": "some text"}
+    base = {"__module__": "m", "__qualname__": "W", "alpha": 1, "Beta": 2, "GAMMA": b"LM", "_private": 9, "helper": cm, "text": "some text"}  # (a bytes code made of ASCII capitals, like service 0x4C)
     variants = [("plain", base, False), ("caps only", dict(base, _return_caps_only_=True), True), ("one-directional", dict(base, _bidirectional_=False), False), ("custom value key", dict(base, _value_key_=vk), False)]
     for label, body, caps in variants:
         kind, e = build(body)
@@ -1849,18 +1849,18 @@ def _mapmeta_rule(ctx):
         up = (lambda s_: s_.upper()) if caps else (lambda s_: s_)
         bidir = body.get("_bidirectional_", True)
         rk = (lambda v: ("key-of", v)) if "_value_key_" in body else (lambda v: v)
-        want = {"alpha": 1, "Beta": 2, "GAMMA": b"\x03", "text": "some text", "beta": 2, "gamma": b"\x03"}
+        want = {"alpha": 1, "Beta": 2, "GAMMA": b"LM", "text": "some text", "beta": 2, "gamma": b"LM"}
         if bidir:
-            want.update({rk(1): "alpha", rk(2): "beta", rk(b"\x03"): "gamma", rk("some text"): "text"})
+            want.update({rk(1): "alpha", rk(2): "beta", rk(b"LM"): "gamma", rk("some text"): "text"})
         ctx.check(isinstance(members, dict) and members == want and list(e.__dict__.get("_attributes", [])) == ["alpha", "Beta", "GAMMA", "text"], key, new, f"{label}: lookup table {sorted(map(repr, want))[:4]}... and attribute list as documented",
                   f"MapMeta.__new__ ({label}) builds the table {members!r} with attributes {e.__dict__.get('_attributes')!r}; expected {want!r} and ['alpha', 'Beta', 'GAMMA', 'text']")
         if not isinstance(members, dict):
             continue
-        probes = [("getitem", getitem, ("BETA",), ("return", 2)), ("getitem", getitem, ("alpha",), ("return", 1)), ("getitem", getitem, ("Gamma",), ("return", b"\x03")), ("getitem", getitem, ("nope",), ("raise", "KeyError")),
+        probes = [("getitem", getitem, ("BETA",), ("return", 2)), ("getitem", getitem, ("alpha",), ("return", 1)), ("getitem", getitem, ("Gamma",), ("return", b"LM")), ("getitem", getitem, ("nope",), ("raise", "KeyError")),
                   ("getitem", getitem, (7,), ("raise", "KeyError")), ("get", get, ("BeTa",), ("return", 2)), ("get", get, ("nope",), ("return", None)), ("get", get, ("nope", 5), ("return", 5)), ("get", get, (7, "d"), ("return", up("d"))),
                   ("contains", contains, ("ALPHA",), ("return", True)), ("contains", contains, ("nope",), ("return", False)), ("contains", contains, (7,), ("return", False)), ("getitem", getitem, ("TEXT",), ("return", up("some text")))]
         if bidir and "_value_key_" not in body:
-            probes += [("getitem", getitem, (1,), ("return", up("alpha"))), ("get", get, (2,), ("return", up("beta"))), ("get", get, (b"\x03",), ("return", up("gamma"))), ("contains", contains, (1,), ("return", True))]
+            probes += [("getitem", getitem, (1,), ("return", up("alpha"))), ("get", get, (2,), ("return", up("beta"))), ("get", get, (b"LM",), ("return", up("gamma"))), ("contains", contains, (1,), ("return", True))]
         if not bidir:
             probes += [("get", get, (1,), ("return", None)), ("contains", contains, (1,), ("return", False))]
         for op, meth, args, want_r in probes:
